@@ -269,7 +269,7 @@ def run(tier, seed):
         out = vlib.replay(ENGINE, scen, env={"TRANSFER_LIMITS": limits, "TRANSFER_TRACE_EVERY": str(trace_every),
                                              "TRANSFER_OBS_EVERY": str(obs_every)}, timeout=60, side_path=sp)
         vlib.log("replayed %d %s scenarios in %.1fs" % (out.total, tag, time.time() - t0))
-        if out.total != n and not out.errors:
+        if out.total != n and not out.errors and not out.truncated:
             raise vlib.Inconclusive("replayed %d of %d %s scenarios" % (out.total, n, tag))
         absorb(v, out, scen, tag)
         sides.append(sp)
